@@ -145,6 +145,19 @@ func (nw *Network) call(from *SimNode, targetAddr, kind string, args interface{}
 		return errTimeout
 	}
 	leg := legOf(kind)
+	// interleave mode: the running operation may be parked around this call
+	task := c.curTask
+	delay := 0
+	if task != nil && task.kind == "gossip" && from == task.n {
+		delay = task.plan[leg]
+		task.plan[leg] = 0
+		if delay < 0 {
+			c.park(task, -delay)
+			if !target.running() || target.silent || !nw.reachable(from, target) {
+				return errTimeout
+			}
+		}
+	}
 	fault := nw.legs[leg]
 	switch fault {
 	case "dropreq":
@@ -164,6 +177,10 @@ func (nw *Network) call(from *SimNode, targetAddr, kind string, args interface{}
 		return errTimeout
 	}
 	err := nw.deliver(target, kind, args, resp)
+	if delay > 0 {
+		c.curTask = task
+		c.park(task, delay)
+	}
 	if kind == "sync" && err == nil && nw.onSyncResp != nil && from != nil {
 		nw.onSyncResp(target, from, resp.(*net.SyncResponse))
 	}
